@@ -132,7 +132,18 @@ Fixpoint m_prog_run (m : mstate) (self : Z) (p : prog) : mstate :=
   | ACreate d rep _ q :: r => m_prog_run (m_create m d rep q) self r
   end.
 
-(* one observed callback: allowed?  then apply what the callback program does *)
+(* one observed callback: allowed?  then apply what the callback program does.
+   Clause by clause (theorem names of Props.v):
+     args_ok                     measured by the harness      C14_args / C14_never_early_args
+     negb early                  measured (monotonic clock)   C14_never_early_args
+     negb after_cancel           measured (harness' own log)  C14_never_after_cancel
+     on_owner                    measured (goroutine id)      C14_callbacks_only_from_do
+     negb (m_cancelled i)        from the op history          C14_monitor_clause_not_cancelled
+     n =? m_count i + 1          invocation counter is the running count (definition of cbrecs)
+     m_rep i || (m_count i =? 0) from the op history          C14_monitor_clause_oneshot_first
+   m_queued_ok: nodupb = C14_one_expiry_token; "not cancelled" = a Settle never reports an expiry
+   of a timer the owner has cancelled (in op-level runs; see Proofs.settle_loop).
+   C14_monitor_accepts_model: the model passes all of them for every op list. *)
 Definition m_cb (m : mstate) (r : cbrec) : bool * mstate :=
   match r with
   | CbRec k n args_ok early after_cancel on_owner =>
